@@ -2,3 +2,5 @@
 import VirtioVerif.Model.Proto
 import VirtioVerif.Model.Layout
 import VirtioVerif.Props.C06
+import VirtioVerif.Model.PciBus
+import VirtioVerif.Props.C12
